@@ -201,7 +201,14 @@ class Validator(object):
                 # For complex datatypes element, the reference is the one of the datatype
                 if not is_base_datatype(el.datatype, el.version) and el.datatype is not None:
                     # Component just to search in the datatypes....
-                    ref = load_reference(el.datatype, 'Datatypes_Structs', el.version)
+                    try:
+                        ref = load_reference(el.datatype, 'Datatypes_Structs', el.version)
+                    except ChildNotFound:
+                        # the tables name a datatype that the version does not define (e.g. LA2 for the withdrawn
+                        # RXA_11 of 2.8.2): report it, validate() does not raise ChildNotFound
+                        errs.append(ValidationError("Datatype {} of {}.{} is not defined in version {}".
+                                                    format(el.datatype, el.parent.name, el.name, el.version)))
+                        return
                     _is_valid(el, ref, errs, warns)
 
         def _is_valid(el, ref, errs, warns):
